@@ -538,6 +538,31 @@ def sites_with_conditions(body, pred):
             inner = conds + ([(s["c"], True)] if s.get("c") is not None else [])
             if s.get("body") is not None:
                 stmts([s["body"]], inner)
+        elif k == "switch" and isinstance(s.get("body"), dict) and s["body"].get("k") == "block":
+            # the statements of a case group run under the pseudo-condition {"k": "caseof", subject, labels}: a test of
+            # the switch subject against the group's labels (groups joined by fall-through share their labels)
+            if s.get("init") is not None:
+                expr(s["init"], conds) if s["init"].get("k") != "decl" else stmt(s["init"], conds)
+            expr(s.get("c"), conds)
+            cur, open_, run = [], False, []
+
+            def flush():
+                if run:
+                    inner = conds + ([({"k": "caseof", "subject": s.get("c"), "labels": list(cur)}, True)] if cur else [])
+                    stmts(list(run), inner)        # one statement list: earlier `if (c) break;` guards later statements
+                    del run[:]
+            for st in s["body"].get("s", []):
+                y, lbs = st, []
+                while isinstance(y, dict) and y.get("k") in ("case", "default"):
+                    lbs.append(y.get("v") if y["k"] == "case" and isinstance(y.get("v"), dict) else {"k": "default"})
+                    y = y.get("s")
+                if lbs:
+                    flush()
+                    cur = (cur if open_ else []) + lbs
+                if isinstance(y, dict):
+                    run.append(y)
+                    open_ = not (y.get("k") in ("break", "return", "cret", "throw", "continue") or always_exits(y))
+            flush()
         elif k in ("do", "rangefor", "switch", "try"):
             for key, v in s.items():
                 if key == "body":
